@@ -4,6 +4,7 @@ package c01
 
 import (
 	"fmt"
+	"math"
 	"os"
 	"strings"
 	"sync/atomic"
@@ -45,6 +46,10 @@ type Case struct {
 	Filler int `json:"filler,omitempty"`
 	// Caps: what the recording reporter says about itself (rec.CapsOf): advisory only
 	Caps int `json:"caps,omitempty"`
+	// Extreme: histogram 0 is created with {-MaxFloat64, 1, MaxFloat64} (explicit extreme bounds make
+	// zero-width first and last buckets, which is where -Inf and +Inf are counted) and the int64
+	// extremes among the recorded values stand for -Inf and +Inf
+	Extreme bool `json:"extreme,omitempty"`
 }
 
 var deltaPool = []int64{0, 1, 1, 1, 2, 3, -1, -2, 1 << 31, -(1 << 31), 9223372036854775807, -9223372036854775808, 1000}
@@ -53,6 +58,7 @@ func gen(t *rapid.T) Case {
 	c := Case{Cached: rapid.Bool().Draw(t, "cached"), Shards: uint(rapid.SampledFrom([]int{1, 1, 2, 4}).Draw(t, "shards"))}
 	c.NSub = rapid.IntRange(0, 2).Draw(t, "nsub")
 	c.Caps = rapid.SampledFrom([]int{0, 0, 0, 1, 2, 3}).Draw(t, "caps")
+	c.Extreme = rapid.IntRange(0, 3).Draw(t, "extreme") == 0
 	if rapid.IntRange(0, 9).Draw(t, "filler?") == 0 {
 		c.Filler = rapid.IntRange(14, 24).Draw(t, "filler")
 	}
@@ -70,7 +76,11 @@ func gen(t *rapid.T) Case {
 		n := rapid.IntRange(1, 5).Draw(t, "nincs")
 		for j := 0; j < n; j++ {
 			if nh > 0 && rapid.IntRange(0, 3).Draw(t, "hist?") == 0 {
-				ops = append(ops, IncOp{C: rapid.IntRange(0, nh-1).Draw(t, "h"), D: int64(rapid.IntRange(0, 2).Draw(t, "v")), H: true})
+				hv := int64(rapid.IntRange(0, 2).Draw(t, "v"))
+				if c.Extreme {
+					hv = rapid.SampledFrom([]int64{0, 1, 2, math.MaxInt64, math.MinInt64, -5}).Draw(t, "xv")
+				}
+				ops = append(ops, IncOp{C: rapid.IntRange(0, nh-1).Draw(t, "h"), D: hv, H: true})
 			} else {
 				ci := rapid.IntRange(0, nc-1).Draw(t, "c")
 				d := rapid.SampledFrom(deltaPool).Draw(t, "d")
@@ -152,6 +162,9 @@ func run(c Case) (pbt.Outcome, error) {
 		if i%2 == 1 {
 			spec = tally.ValueBuckets{1}
 		}
+		if i == 0 && c.Extreme {
+			spec = tally.ValueBuckets{-math.MaxFloat64, 1, math.MaxFloat64}
+		}
 		hists[i] = scopes[sc].Histogram(fmt.Sprintf("h%d", i), spec)
 		hpairs[i] = model.ValuePairs([]float64(spec))
 		hacct[i] = map[float64]*acct{}
@@ -181,10 +194,16 @@ func run(c Case) (pbt.Outcome, error) {
 		s.Go(fmt.Sprintf("inc%d", ti), func() {
 			for _, op := range ops {
 				if op.H {
-					hi, _ := model.ValueBucketOf(hpairs[op.C], float64(op.D))
+					v := float64(op.D)
+					if c.Extreme && op.D == math.MaxInt64 {
+						v = math.Inf(1)
+					} else if c.Extreme && op.D == math.MinInt64 {
+						v = math.Inf(-1)
+					}
+					hi, _ := model.ValueBucketOf(hpairs[op.C], v)
 					a := hacct[op.C][hi]
 					closedBefore := closedScope[c.Hists[op.C]].Load()
-					hists[op.C].RecordValue(float64(op.D))
+					hists[op.C].RecordValue(v)
 					a.sum.Add(1)
 					if !closedBefore && !closedScope[c.Hists[op.C]].Load() {
 						a.before.Add(1)
